@@ -70,8 +70,6 @@ def nonfreshNoted : List ((String × String × String × String) × Cover) := [
     .na "sort.Interface over slices produced by OrderedValues (fresh per call)"),
   (("rel/value_set_generic.go", "ValueList.Swap", "store vl[j]", "param"),
     .na "sort.Interface over slices produced by OrderedValues (fresh per call)"),
-  (("rel/value_set_rel.go", "Relation.Join", "append leftOutput", "param"),
-    .na "attribute-name list (NamesSlice), not a value's payload"),
   (("rel/value_set_relpos.go", "positionalRelation.JoinKeepEverything", "append leftVal.project(leftOutput).values()", "local"),
     .model "Op.join via the builder" "`values()` returns a slice made in that call (make/Values{}), so the append target is fresh"),
   (("rel/value_tuple.go", "NewTuple", "store attrs[0]", "param"),
@@ -96,7 +94,7 @@ def summary : List (String × Nat) := [
   ("rel/expr_dict.go fresh", 2),
   ("rel/expr_reduce_median.go param", 3),
   ("rel/expr_rel.go fresh", 11),
-  ("rel/expr_seqmap.go fresh", 4),
+  ("rel/expr_seqmap.go fresh", 5),
   ("rel/expr_tuple.go fresh", 4),
   ("rel/json.go fresh", 9),
   ("rel/names.go fresh", 2),
@@ -109,7 +107,7 @@ def summary : List (String × Nat) := [
   ("rel/ops_set_rank.go param", 2),
   ("rel/ops_tuple.go fresh", 4),
   ("rel/pattern_array.go fresh", 3),
-  ("rel/pattern_dict.go fresh", 3),
+  ("rel/pattern_dict.go fresh", 5),
   ("rel/pattern_expr.go fresh", 1),
   ("rel/pattern_set.go fresh", 3),
   ("rel/pattern_tuple.go fresh", 2),
@@ -121,16 +119,15 @@ def summary : List (String × Nat) := [
   ("rel/value_set_array.go fresh", 8),
   ("rel/value_set_builder.go param", 2),
   ("rel/value_set_bytes.go fresh", 6),
-  ("rel/value_set_dict.go fresh", 1),
+  ("rel/value_set_dict.go fresh", 2),
   ("rel/value_set_dict.go param", 2),
   ("rel/value_set_generic.go fresh", 1),
   ("rel/value_set_generic.go param", 2),
-  ("rel/value_set_rel.go fresh", 12),
-  ("rel/value_set_rel.go param", 1),
+  ("rel/value_set_rel.go fresh", 14),
   ("rel/value_set_relpos.go fresh", 3),
   ("rel/value_set_relpos.go local", 1),
   ("rel/value_set_str.go fresh", 9),
-  ("rel/value_set_union.go fresh", 1),
+  ("rel/value_set_union.go fresh", 2),
   ("rel/value_tuple.go fresh", 6),
   ("rel/value_tuple.go param", 3),
   ("rel/value_values.go fresh", 5),
